@@ -130,7 +130,14 @@ theorem ante_signers_user (mode : Mode) (s s1 : State) (tx : Tx)
   exact key Facts.anteOrder s s1 hmem h
 
 theorem mem_required (tx : Tx) (m : Msg) (a : Addr) (hm : m ∈ tx.msgs) (ha : m.signer = some a) : a ∈ tx.required := by
-  unfold Tx.required
+  suffices hms : a ∈ tx.msgSigners by
+    unfold Tx.required
+    split
+    · split
+      · exact hms
+      · exact List.mem_append_left _ hms
+    · exact hms
+  unfold Tx.msgSigners
   have hmem : a ∈ tx.msgs.filterMap Msg.signer := List.mem_filterMap.mpr ⟨m, hm, ha⟩
   generalize tx.msgs.filterMap Msg.signer = l at hmem
   have key : ∀ (l acc : List Addr), (a ∈ l ∨ a ∈ acc) →
